@@ -130,7 +130,7 @@ class SyncDaliHatDriver(DaliHatSerialDriver, SyncDALIDriver):
 
                     resp = None
                     if resend and not already_resent:
-                        self.conn.write((cmd).encode("ascii"))
+                        self.conn.write(cmd)
                         REPS += 1 + send_twice
                         already_resent = True
                 else:
@@ -146,7 +146,7 @@ class SyncDaliHatDriver(DaliHatSerialDriver, SyncDALIDriver):
                         last_resp = None
                         resend = True
                 if resend and resent_times < 5:
-                    self.conn.write(cmd.encode("ascii"))
+                    self.conn.write(cmd)
                     REPS += 1 + send_twice
                     resent_times += 1
             if command.is_query:
